@@ -16,17 +16,25 @@ RULE = ("get_as_int: the real function on a stub token over a grid bitness x uns
         "implicit word lists; each driven directly through Compiler.compile_insn at a deferred emit address (bytes, diagnostics in "
         "order, announced size) and a subset end to end through the assembler (.byte 0 / .link prefix); quoted strings: "
         "escape(s) round trips, every escape form, malformed escapes, through parser.quoted_string; Python's whitespace and "
-        "lower() classes over all 0x110000 code points. non-trivial = distinct (directive, operands, address parity, charset) whose "
+        "lower() classes over all 0x110000 code points; values written as character literals ('c, \"cc: one/two characters of one, "
+        "two or more bytes, unencodable) alone and among numeric operands of .byte/.word/.dword in all five charsets, direct and end "
+        "to end; programs of directives one after another and inside .repeat (every address-dependent directive x 0-3 bytes before "
+        "it x 0-1 after it x count 2-3 x both base parities, as a .repeat and written out; counts 0/1/4/-1; seeded programs of 1-4 "
+        "items, repeat counts 0-4, bodies of 1-4 directives, bases of both parities) assembled end to end. non-trivial = distinct (directive, operands, address parity, charset) whose "
         "operands are not all zero, or a distinct string containing an escape")
 LEVEL_TEXT = ("Coq theorems over get_as_int, the operand typing, the size lambdas and the bodies of blkb/blkw/even/odd/align regenerated "
               "from metacommand_impl.py/metacommands.py on every run, and over a hand model of compile_insn, byte/word/dword, "
               "ascii_impl, compile_word_list and string_escape: accept iff the magnitude fits, little-endian bytes of v mod 2^n, "
               "dword high word first, exact zero fills, least alignment padding, ascii = concatenation of chunk encodings, refusal "
               "never yields an image, announced size = emitted length, unescape(escape s) = s; the model meets Spec/DataSpec.v for "
-              "every directive, operand list and address (unbounded Z).")
+              "every directive, operand list and address (unbounded Z); a character literal without a value in the output charset "
+              "(unencodable, or more than two bytes) is refused under any codec; every copy of every directive in a sequence or a "
+              ".repeat body stores its stated image at the address where the bytes before it end, or the program is refused "
+              "(Spec/DataBlockSpec.v, Model/DirectivesSeq.v).")
 LEVEL_NOTE = ("Trusted: Coq kernel + vm_compute, tools/gens/gen_meta.py (translation of get_as_int, size lambdas, one-liners; pins of "
               "Metacommand.__init__/compile_insn), the harness, Spec/DataSpec.v, CPython (struct, codecs). The hand-modelled bodies "
-              "(byte, word, dword, ascii_impl, compile_word_list, string_escape) are tied by correspondence only. For utf-8, koi8-r, "
+              "(byte, word, dword, ascii_impl, compile_word_list, string_escape, CharLiteral.resolve, the address threading of "
+              "compile_block / repeat) are tied by correspondence only. For utf-8, koi8-r, "
               "latin-1, cp866 Python's codec is an oracle. Print Assumptions: closed under the global context for every theorem.")
 TECHNIQUE = "Coq proof over regenerated functions/tables + model/implementation correspondence + model-free Spec judge in coqc"
 ASSUME = ["Python's int, bytes, struct.pack and codecs behave as documented",
@@ -861,7 +869,8 @@ def explore(rep, br, tier, seed):
     record(rep, flat, codes)
     rep.exhaustive_parts.append(".align: all moduli 0-64 x all offsets 0-70; every operand count 0-8 of every directive; "
                                 "every boundary value of every width at every operand count; every byte 0-255 through its escape; "
-                                "str.strip / str.lower classes over all 0x110000 code points")
+                                "str.strip / str.lower classes over all 0x110000 code points; every address-dependent directive in a "
+                                ".repeat body after 0-3 bytes, counts 2-3, both base parities")
     for c, o in zip(cases, obs):
         if c["t"] == "dir" and c["mode"] == "direct" and c["kind"] == "meta" and c["name"] == ".dword" and len(c["ops"]) == 2:
             rep.sample({"source": safe(c["src"]), "operands": c["ops"], "addr": c["addr"], "impl": short_obs(o)})
